@@ -46,18 +46,25 @@
 (* valid_until_ts and 7 days ahead of the clock; lenient rooms (v1-v4)     *)
 (* ignore valid_until_ts (Matrix: "MUST be ignored in room versions 1-4"). *)
 (*                                                                         *)
-(* StoreRule selects what a call writes for key IDs it did not ask for     *)
-(* (a fetcher answers with a whole key response: every key ID in it):      *)
-(*   "held"    (the property-relevant reading: keys a fetcher volunteers   *)
-(*             never displace keys the key ring already holds - the ring   *)
-(*             holds what is in its database) stored only if the database  *)
-(*             has nothing for that key ID;                                *)
+(* A fetcher answers with a whole key response, i.e. also for key IDs it   *)
+(* was not asked for.  StoreRule selects what a call writes for those:     *)
+(*   "monotone" (reference) a volunteered key is stored when the database  *)
+(*             has nothing for that key ID or when it says MORE than the   *)
+(*             entry held: an expired_ts where the database has none, a    *)
+(*             later valid_until_ts.  It never displaces what the key ring *)
+(*             holds by something older ("keys a fetcher volunteers no     *)
+(*             longer displace keys the key ring already holds"; "the key  *)
+(*             is expired - it's not going to change").                    *)
+(*   "held"    stricter: stored only if the database has nothing for it.   *)
 (*   "asbuilt" what keyring.go does: the guard only looks at the keys      *)
 (*             obtained DURING THIS CALL, so a volunteered key overwrites  *)
-(*             a database entry of a key ID that was not asked for now.    *)
-(* Under "asbuilt" TLC refutes ExpiredIsFinal / DBMonotone / KnownExpiry   *)
-(* (KeyLife_asbuilt.cfg): that is the design-level counterexample; the     *)
-(* replay shows the real library takes exactly that step.                  *)
+(*             the database entry of a key ID that was not asked for now,  *)
+(*             whatever it says.                                           *)
+(* The clauses below hold for "monotone" and "held".  Under "asbuilt" TLC  *)
+(* refutes ExpiredIsFinal / DBMonotone / KnownExpiry (KeyLife_asbuilt.cfg):*)
+(* a stale copy replayed by the notary revives a retired key.  That is the *)
+(* design-level counterexample; the replay shows whether the real library  *)
+(* takes that step.                                                        *)
 (*                                                                         *)
 (* The property clauses are stated over history variables (pub = all the   *)
 (* origin ever published; hist = every step with, for a Verify, the        *)
@@ -80,7 +87,8 @@ CONSTANTS NK,         \* number of key IDs (at most NK - 1 rotations)
           Sigs,       \* signatures of a request: "good" (made with the key material of its key ID),
                       \* "bad" (made with a key the origin never published)
           ReqTS,      \* request timestamps
-          StoreRule   \* "held" | "asbuilt"
+          Rules,      \* room-version rules of a request: subset of BOOLEAN (TRUE = strict)
+          StoreRule   \* "monotone" | "held" | "asbuilt"
 
 NoTS == -1            \* PublicKeyNotExpired / PublicKeyNotValid (the library's magic 0)
 Cap  == 1             \* "7 days into the future" in ticks (see Time above)
@@ -109,13 +117,14 @@ VARIABLES
     \* ---- history
     nreq,           \* Verify calls so far
     pub,            \* every [kid, e] the origin ever published
+    known,          \* key ID -> the expired_ts the database has ever held for it (NoTS: never)
     hist            \* every step
 
 origin == <<cur, ovu, oexp>>
 env    == <<dirUp, notUp, order, nmode>>
-vars   == <<now, origin, snap, env, db, nreq, pub, hist>>
+vars   == <<now, origin, snap, env, db, nreq, pub, known, hist>>
 
-Requests == [kid : KIDS, ts : ReqTS, strict : BOOLEAN, sig : Sigs]
+Requests == [kid : KIDS, ts : ReqTS, strict : Rules, sig : Sigs]
 
 \* ------------------------------------------------------------- validity
 Present(e)    == e # NoEnt
@@ -130,6 +139,10 @@ ValidAt(e, ts, strict, t) ==
        ELSE strict => (e.vu # NoTS /\ ts <= e.vu /\ ts <= t + Cap)
 
 Good(e, rq, t) == rq.sig = "good" /\ ValidAt(e, rq.ts, rq.strict, t)
+
+\* entry a says more than entry b about the same key ID: expiry is final, a later response supersedes
+Newer(a, b) == Present(a) /\ Present(b) /\
+               ((Expired(a) /\ ~Expired(b)) \/ (~Expired(a) /\ ~Expired(b) /\ a.vu > b.vu))
 
 \* ------------------------------------------------------------- sources
 \* what the origin serves at /_matrix/key/v2/server right now
@@ -163,9 +176,10 @@ Outcome(d, t, tr, sn, du, nu, ord, nm, rq) ==
         st2   == AskStep(st1, ord[2], AnswerOf(ord[2], tr, sn, du, nu, nm, rq.kid), rq.kid)
         h     == st2.have
         newdb == [k \in KIDS |->
-                    IF StoreRule = "asbuilt" THEN (IF Present(h[k]) THEN h[k] ELSE d[k])
-                    ELSE IF k = rq.kid THEN (IF Present(h[k]) THEN h[k] ELSE d[k])
-                    ELSE IF Present(d[k]) THEN d[k] ELSE h[k]]
+                    IF StoreRule = "asbuilt" \/ k = rq.kid THEN (IF Present(h[k]) THEN h[k] ELSE d[k])
+                    ELSE IF ~Present(d[k]) THEN h[k]
+                    ELSE IF StoreRule = "monotone" /\ Newer(h[k], d[k]) THEN h[k]
+                    ELSE d[k]]
     IN  IF early
         THEN [res |-> "ok", con |-> <<>>, ans |-> <<>>, db |-> d]
         ELSE [res |-> IF Good(h[rq.kid], rq, t) THEN "ok" ELSE "fail",
@@ -186,13 +200,14 @@ Init ==
     /\ db = Empty
     /\ nreq = 0
     /\ pub = {[kid |-> 1, e |-> Cur(V)]}
+    /\ known = [k \in KIDS |-> NoTS]
     /\ hist = <<>>
 
 Tick ==
     /\ now < MaxT
     /\ now' = now + 1
     /\ hist' = Append(hist, EnvStep("tick", "-"))
-    /\ UNCHANGED <<origin, snap, env, db, nreq, pub>>
+    /\ UNCHANGED <<origin, snap, env, db, nreq, pub, known>>
 
 \* the origin retires its current key (expired_ts = now) and starts using the next key ID
 Rotate ==
@@ -202,7 +217,7 @@ Rotate ==
     /\ ovu' = now + V
     /\ pub' = pub \cup {[kid |-> cur, e |-> Old(now)], [kid |-> cur + 1, e |-> Cur(now + V)]}
     /\ hist' = Append(hist, EnvStep("rotate", "-"))
-    /\ UNCHANGED <<now, snap, env, db, nreq>>
+    /\ UNCHANGED <<now, snap, env, db, nreq, known>>
 
 \* the origin publishes a later valid_until_ts for the same keys
 Renew ==
@@ -210,36 +225,38 @@ Renew ==
     /\ ovu' = now + V
     /\ pub' = pub \cup {[kid |-> cur, e |-> Cur(now + V)]}
     /\ hist' = Append(hist, EnvStep("renew", "-"))
-    /\ UNCHANGED <<now, cur, oexp, snap, env, db, nreq>>
+    /\ UNCHANGED <<now, cur, oexp, snap, env, db, nreq, known>>
 
 \* the notary refreshes its copy; until the next Sync the copy goes stale whenever the origin changes
 Sync ==
     /\ snap # Truth
     /\ snap' = Truth
     /\ hist' = Append(hist, EnvStep("sync", "-"))
-    /\ UNCHANGED <<now, origin, env, db, nreq, pub>>
+    /\ UNCHANGED <<now, origin, env, db, nreq, pub, known>>
 
 Outage(f) ==
     /\ IF f = "d" THEN dirUp /\ dirUp' = FALSE /\ UNCHANGED notUp
                   ELSE notUp /\ notUp' = FALSE /\ UNCHANGED dirUp
     /\ hist' = Append(hist, EnvStep("down", f))
-    /\ UNCHANGED <<now, origin, snap, order, nmode, db, nreq, pub>>
+    /\ UNCHANGED <<now, origin, snap, order, nmode, db, nreq, pub, known>>
 
 Recover(f) ==
     /\ IF f = "d" THEN ~dirUp /\ dirUp' = TRUE /\ UNCHANGED notUp
                   ELSE ~notUp /\ notUp' = TRUE /\ UNCHANGED dirUp
     /\ hist' = Append(hist, EnvStep("up", f))
-    /\ UNCHANGED <<now, origin, snap, order, nmode, db, nreq, pub>>
+    /\ UNCHANGED <<now, origin, snap, order, nmode, db, nreq, pub, known>>
 
-Verify(rq) ==
-    /\ nreq < MaxReq
+Call(rq) ==
     /\ LET o == Here(db, dirUp, notUp, rq) IN
        /\ db' = o.db
+       /\ known' = [k \in KIDS |-> IF Expired(o.db[k]) THEN o.db[k].exp ELSE known[k]]
        /\ hist' = Append(hist, [a |-> "verify", f |-> "-", rq |-> rq, res |-> o.res, con |-> o.con,
                                 ans |-> o.ans, t |-> now, du |-> dirUp, nu |-> notUp,
                                 tr |-> Truth, sn |-> snap, dbb |-> db, dba |-> o.db])
     /\ nreq' = nreq + 1
     /\ UNCHANGED <<now, origin, snap, env, pub>>
+
+Verify(rq) == nreq < MaxReq /\ Call(rq)
 
 EnvNext == Tick \/ Rotate \/ Renew \/ Sync \/ (\E f \in {"d", "n"} : Outage(f) \/ Recover(f))
 Next == EnvNext \/ (\E rq \in Requests : Verify(rq))
@@ -257,13 +274,16 @@ FirstAnswer(c, k) == c.ans[CHOOSE j \in DOMAIN c.ans :
                             Present(c.ans[j][k]) /\ \A i \in 1..(j - 1) : ~Present(c.ans[i][k])][k]
 
 TypeOK ==
-    /\ now \in 0..MaxT /\ cur \in KIDS /\ nreq \in 0..MaxReq
+    /\ now \in 0..MaxT /\ cur \in KIDS /\ nreq \in Nat
     /\ \A k \in KIDS : db[k] \in {NoEnt} \cup {Cur(v) : v \in 0..(MaxT + V)} \cup {Old(x) : x \in 0..MaxT}
+
+\* Clauses about ONE call are written over its history record c (XxxC) and asserted for every call
+\* of the history (Xxx) and, as an action property, for every Verify transition (EveryCallOK).
 
 \* (1) a request succeeds only under a key the origin published for that key ID, which the key ring
 \*     obtained (database or a contacted fetcher), valid at the request's timestamp by the applicable rule,
 \*     and only if the signature was made with that key
-Sound == \A i \in Calls : LET c == hist[i] IN
+SoundC(c) ==
     c.res = "ok" =>
         /\ c.rq.sig = "good"
         /\ \E e \in Obtained(c, c.rq.kid) :
@@ -278,72 +298,95 @@ FirstSource(c) ==
     IF Present(c.dbb[k]) /\ (Settled(c.dbb[k], c.t) \/ Good(c.dbb[k], c.rq, c.t)) THEN c.dbb[k]
     ELSE IF Answered(c, k) THEN FirstAnswer(c, k)
     ELSE c.dbb[k]
-Complete == \A i \in Calls : LET c == hist[i] IN
-    Good(FirstSource(c), c.rq, c.t) => c.res = "ok"
+CompleteC(c) == Good(FirstSource(c), c.rq, c.t) => c.res = "ok"
 
 \* (2) once a usable key is in the database no fetcher is contacted for requests it satisfies; an
 \*     expired key is never requested again; a key inside its validity is not refreshed
-NoNeedlessContact == \A i \in Calls : LET c == hist[i]  e == c.dbb[c.rq.kid] IN
+NoNeedlessContactC(c) == LET e == c.dbb[c.rq.kid] IN
     (Present(e) /\ (Good(e, c.rq, c.t) \/ Settled(e, c.t))) => c.con = <<>>
 \* fetchers are asked in configuration order, a later one only when the earlier ones did not answer
-InOrder == \A i \in Calls : LET c == hist[i] IN
+InOrderC(c) ==
     /\ Len(c.con) <= 2 /\ \A j \in DOMAIN c.con : c.con[j] = order[j]
     /\ \A j \in DOMAIN c.con : \A l \in 1..(j - 1) : ~Present(c.ans[l][c.rq.kid])
 
 \* (3) rotation.  Once the database says key ID k expired at x, every request under k is judged by x
-\*     alone - from the database, whatever the fetchers would say, for the rest of the history
-ExpiredDecides == \A i \in Calls : LET c == hist[i]  e == c.dbb[c.rq.kid] IN
+\*     alone - from the database, whatever the fetchers would say (ExpiredDecides), for the rest of
+\*     the history (KnownExpiry, ExpiredIsFinal below)
+ExpiredDecidesC(c) == LET e == c.dbb[c.rq.kid] IN
     (Present(e) /\ Expired(e)) =>
         /\ c.con = <<>>
         /\ c.res = (IF c.rq.sig = "good" /\ c.rq.ts < e.exp THEN "ok" ELSE "fail")
 KnownExpiry == \A i, j \in Calls : LET a == hist[i]  b == hist[j]  k == b.rq.kid IN
     (i < j /\ Present(a.dba[k]) /\ Expired(a.dba[k])) =>
         b.res = (IF b.rq.sig = "good" /\ b.rq.ts < a.dba[k].exp THEN "ok" ELSE "fail")
-\*     ... and a key ID the origin has retired still verifies what was signed before its expired_ts
-\*     when the key ring learns of it from the origin itself (old_verify_keys)
-OldKeyStillVerifies == \A i \in Calls : LET c == hist[i]  k == c.rq.kid IN
+\*     the same as a statement about every reachable state and every possible request: once the key
+\*     ring has learnt that key ID k expired at x, nothing timestamped x or later verifies under k
+\*     any more, and what a good signature covers before x still does - whatever the fetchers say
+RetiredForGood == \A rq \in Requests : known[rq.kid] # NoTS =>
+    \A du, nu \in BOOLEAN :
+        Here(db, du, nu, rq).res = (IF rq.sig = "good" /\ rq.ts < known[rq.kid] THEN "ok" ELSE "fail")
+\*     ... and a key ID the origin has retired still verifies what was signed before its expired_ts,
+\*     and nothing after, when the key ring learns of it from the origin itself (old_verify_keys)
+OldKeyStillVerifiesC(c) == LET k == c.rq.kid IN
     (Expired(c.tr[k]) /\ c.con # <<>> /\ FirstSource(c) = c.tr[k] /\ c.rq.sig = "good") =>
         c.res = (IF c.rq.ts < c.tr[k].exp THEN "ok" ELSE "fail")
 
-\* (4) the database only grows in knowledge: nothing is deleted; an entry is replaced only for the
-\*     key ID the call asked for, only when it is neither expired nor inside its validity, and only
-\*     by what a contacted fetcher answered for that same key ID; a new entry is what a contacted
-\*     fetcher answered (first answer wins); everything in it was published by the origin
-DBMonotone == \A i \in Calls : LET c == hist[i] IN \A k \in KIDS :
+\* (4) the database only grows in knowledge.  Nothing is deleted.  The entry of the key ID the call
+\*     asked for is replaced only when it is neither expired nor inside its validity, by what the
+\*     first answering fetcher said (the documented refresh).  The entry of any other key ID is
+\*     replaced only by a volunteered entry that says more (Newer): never by something older, and an
+\*     expired entry by nothing at all.  A new entry is what a contacted fetcher answered for that
+\*     key ID.  Everything in the database was published by the origin.
+VolunteeredFor(c, k) == {c.ans[j][k] : j \in DOMAIN c.ans}
+DBMonotoneC(c) == \A k \in KIDS :
     /\ Present(c.dbb[k]) => Present(c.dba[k])
     /\ (Present(c.dbb[k]) /\ c.dba[k] # c.dbb[k]) =>
-            /\ k = c.rq.kid /\ ~Settled(c.dbb[k], c.t)
-            /\ Answered(c, k) /\ c.dba[k] = FirstAnswer(c, k)
+            IF k = c.rq.kid
+            THEN ~Settled(c.dbb[k], c.t) /\ Answered(c, k) /\ c.dba[k] = FirstAnswer(c, k)
+            ELSE Newer(c.dba[k], c.dbb[k]) /\ c.dba[k] \in VolunteeredFor(c, k)
     /\ (~Present(c.dbb[k]) /\ Present(c.dba[k])) => (Answered(c, k) /\ c.dba[k] = FirstAnswer(c, k))
+ExpiredKeptC(c) == \A k \in KIDS : Expired(c.dbb[k]) => c.dba[k] = c.dbb[k]
+\* what a fetcher answered for the key ID asked for is in the database afterwards
+StoredFetchedC(c) == LET k == c.rq.kid IN Answered(c, k) => c.dba[k] = FirstAnswer(c, k)
 ExpiredIsFinal == \A i, j \in Calls : \A k \in KIDS : LET a == hist[i] IN
     (i <= j /\ Present(a.dbb[k]) /\ Expired(a.dbb[k])) => hist[j].dba[k] = a.dbb[k]
-FreshIsKept == \A i \in Calls : \A k \in KIDS : LET c == hist[i] IN
-    Fresh(c.dbb[k], c.t) => c.dba[k] = c.dbb[k]
 NothingInvented == \A k \in KIDS : Present(db[k]) => db[k] \in Published(k)
-\* what a fetcher answered for the key ID asked for is in the database afterwards
-StoredFetched == \A i \in Calls : LET c == hist[i]  k == c.rq.kid IN
-    Answered(c, k) => c.dba[k] = FirstAnswer(c, k)
 \* the database changes in Verify steps only, and the history is continuous
 Continuity == \A i, j \in Calls :
     (i < j /\ \A m \in (i + 1)..(j - 1) : m \notin Calls) => hist[j].dbb = hist[i].dba
 LastDB == \A i \in Calls : (\A m \in Calls : m <= i) => hist[i].dba = db
-EnvLeavesDB == [][(\A rq \in Requests : ~Verify(rq)) => UNCHANGED db]_vars
+EnvLeavesDB == [][(\A rq \in Requests : ~Call(rq)) => UNCHANGED db]_vars
 
 \* (5) fetcher outage never turns a request the database can verify into a failure and never makes
 \*     an unverifiable one succeed; it leaves the database alone.  Counterfactual on every reachable
 \*     state: the same call with the fetchers as they are, with each one down, with both down.
 VerifiableByDB(rq) == Present(db[rq.kid]) /\ Good(db[rq.kid], rq, now)
 OutageHarmless == \A rq \in Requests :
-    LET asis == Here(db, dirUp, notUp, rq)
-        out  == Here(db, FALSE, FALSE, rq)
+    LET out == Here(db, FALSE, FALSE, rq)
     IN  /\ VerifiableByDB(rq) => \A du, nu \in BOOLEAN : Here(db, du, nu, rq).res = "ok"
         /\ ~VerifiableByDB(rq) => (out.res = "fail" /\ out.db = db)
-        /\ out.res = "ok" => asis.res = "ok"
 \* the same on the calls that happened: when no contacted fetcher answered, the database alone decided
-OutageInHistory == \A i \in Calls : LET c == hist[i]  k == c.rq.kid IN
+OutageC(c) == LET k == c.rq.kid IN
     (\A kk \in KIDS : ~Answered(c, kk)) =>
         /\ c.dba = c.dbb
         /\ c.res = (IF Good(c.dbb[k], c.rq, c.t) THEN "ok" ELSE "fail")
+
+CallOK(c) ==
+    /\ SoundC(c) /\ CompleteC(c) /\ NoNeedlessContactC(c) /\ InOrderC(c) /\ ExpiredDecidesC(c)
+    /\ OldKeyStillVerifiesC(c) /\ DBMonotoneC(c) /\ ExpiredKeptC(c)
+    /\ StoredFetchedC(c) /\ OutageC(c)
+
+Sound              == \A i \in Calls : SoundC(hist[i])
+Complete           == \A i \in Calls : CompleteC(hist[i])
+NoNeedlessContact  == \A i \in Calls : NoNeedlessContactC(hist[i])
+InOrder            == \A i \in Calls : InOrderC(hist[i])
+ExpiredDecides     == \A i \in Calls : ExpiredDecidesC(hist[i])
+OldKeyStillVerifies == \A i \in Calls : OldKeyStillVerifiesC(hist[i])
+DBMonotone         == \A i \in Calls : DBMonotoneC(hist[i]) /\ ExpiredKeptC(hist[i])
+StoredFetched      == \A i \in Calls : StoredFetchedC(hist[i])
+OutageInHistory    == \A i \in Calls : OutageC(hist[i])
+\* every Verify transition (also the ones that lead to a state already seen)
+EveryCallOK == [][(Len(hist') > Len(hist) /\ hist'[Len(hist')].a = "verify") => CallOK(hist'[Len(hist')])]_vars
 
 \* "add the keys to the database so that we won't need to fetch them again": the same request again,
 \* at once, gets the same answer, leaves the database as it is, and contacts nobody if the first call
